@@ -588,4 +588,8 @@ class ClientGenerator:
                 if diff:
                     has_diff = True
                     print("\n".join(diff))
+            else:
+                # A file that would be generated now but is absent from the existing output is a difference too
+                has_diff = True
+                print(f"Missing from existing output: {old_file}")
         return has_diff
